@@ -6,6 +6,7 @@ import (
 	"regexp"
 	"strconv"
 	"strings"
+	"unicode"
 
 	"github.com/antlr4-go/antlr/v4"
 	gen "github.com/nyaruka/goflow/antlr/gen/excellent1"
@@ -63,7 +64,19 @@ func migrateLegacyTemplateAsString(template string, options *MigrateOptions) (st
 	scanner.SetUnescapeBody(false)
 	errors := excellent.NewTemplateErrors()
 
+	// scan all the tokens first so that we can look at what follows an expression
+	type scanned struct {
+		tokenType excellent.XTokenType
+		token     string
+	}
+	tokens := make([]scanned, 0)
 	for tokenType, token := scanner.Scan(); tokenType != excellent.EOF; tokenType, token = scanner.Scan() {
+		tokens = append(tokens, scanned{tokenType, token})
+	}
+
+	for i, t := range tokens {
+		tokenType, token := t.tokenType, t.token
+
 		switch tokenType {
 		case excellent.BODY:
 			buf.WriteString(token)
@@ -98,7 +111,14 @@ func migrateLegacyTemplateAsString(template string, options *MigrateOptions) (st
 				}
 
 				// optionally wrap expression so that it is URL encoded or defaults to itself on error
-				buf.WriteString(wrapRawExpression(value, errorAs, options.URLEncode))
+				wrapped := wrapRawExpression(value, errorAs, options.URLEncode)
+
+				// a bare reference like @contact.name is only equivalent to @(contact.name) if the text which follows
+				// can't be read as more of the reference
+				if !strings.HasPrefix(wrapped, "@(") && i+1 < len(tokens) && tokens[i+1].tokenType == excellent.BODY && continuesIdentifier(tokens[i+1].token) {
+					wrapped = "@(" + wrapped[1:] + ")"
+				}
+				buf.WriteString(wrapped)
 			}
 		}
 	}
@@ -107,6 +127,17 @@ func migrateLegacyTemplateAsString(template string, options *MigrateOptions) (st
 		return buf.String(), errors
 	}
 	return buf.String(), nil
+}
+
+// whether the given text, directly after a bare reference, would be scanned as part of that reference
+func continuesIdentifier(following string) bool {
+	runes := []rune(following)
+	if len(runes) == 0 {
+		return false
+	}
+	isNameChar := func(r rune) bool { return unicode.IsLetter(r) || unicode.IsDigit(r) || r == '_' }
+
+	return isNameChar(runes[0]) || (runes[0] == '.' && len(runes) > 1 && isNameChar(runes[1]))
 }
 
 // migrates an old expression into a new format expression
